@@ -2,7 +2,7 @@
     oracle, compare with what the implementation did.  Executable only. *)
 From Coq Require Import List NArith ZArith Bool String.
 From ApiFu Require Import Base.Sexp Intro.Utf8 Intro.IntrospectModel Intro.MarshalValue
-     Intro.LiteralSpec Intro.IntrospectSpec.
+     Intro.LiteralSpec Intro.IntrospectSpec Intro.Rebuild Intro.RebuildSpec.
 Import ListNotations.
 Open Scope string_scope.
 
@@ -86,7 +86,7 @@ Definition dec_type (s : sexp) : option (name * named_type * list dsite) :=
   | Some (t, SStr n :: rest) =>
       if String.eqb t "scalar" then
         match rest with
-        | [b; req; SStr desc] => do bi <- as_bool b; do rq <- dec_names req; Some (n, NScalar bi rq desc, [])
+        | [b; aa; req; SStr desc] => do bi <- as_bool b; do ac <- as_bool aa; do rq <- dec_names req; Some (n, NScalar bi ac rq desc, [])
         | _ => None
         end
       else if String.eqb t "enum" then
@@ -573,10 +573,205 @@ Definition check_intro (l : list sexp) : sexp :=
   | _, _, _, _ => v_bad "fields"
   end.
 
+(** ** definitions compared structurally; the answer names the first difference *)
+Fixpoint gval_deep_eqb (a b : gval) {struct a} : bool :=
+  match a, b with
+  | GNull, GNull => true
+  | GInt x, GInt y => Z.eqb x y
+  | GFloat m e _, GFloat m' e' _ => Z.eqb m m' && Z.eqb e e'
+  | GString s, GString t => bytes_eqb s t
+  | GBool x, GBool y => Bool.eqb x y
+  | GList xs, GList ys =>
+      (fix all2 (xs ys : list gval) : bool :=
+         match xs, ys with
+         | [], [] => true
+         | x :: xs', y :: ys' => gval_deep_eqb x y && all2 xs' ys'
+         | _, _ => false
+         end) xs ys
+  | GMap xs, GMap ys =>
+      (fix all2 (xs ys : list (name * gval)) : bool :=
+         match xs, ys with
+         | [], [] => true
+         | (k, x) :: xs', (k', y) :: ys' => bytes_eqb k k' && gval_deep_eqb x y && all2 xs' ys'
+         | _, _ => false
+         end) xs ys
+  | _, _ => false
+  end.
+
+Fixpoint sty_eqb (a b : sty) : bool :=
+  match a, b with
+  | StNamed x, StNamed y => bytes_eqb x y
+  | StList x, StList y => sty_eqb x y
+  | StNonNull x, StNonNull y => sty_eqb x y
+  | _, _ => false
+  end.
+
+Definition names_eqb (a b : list name) : bool :=
+  match first_diff (fun x y => chk (bytes_eqb x y) "x") a b with None => true | Some _ => false end.
+
+Definition idef_diff (a b : name * input_def) : option string :=
+  chk (bytes_eqb (fst a) (fst b)) "name" <|>
+  chk (sty_eqb (in_type (snd a)) (in_type (snd b))) "type" <|>
+  chk (opt_eqb gval_deep_eqb (in_default (snd a)) (in_default (snd b))) "default" <|>
+  chk (bytes_eqb (in_desc (snd a)) (in_desc (snd b))) "description".
+Definition idefs_diff (what : string) (a b : list (name * input_def)) : option string :=
+  match first_diff idef_diff a b with Some d => Some (what ++ "-" ++ d) | None => None end.
+Definition fdef_diff (a b : name * field_def) : option string :=
+  chk (bytes_eqb (fst a) (fst b)) "name" <|>
+  chk (sty_eqb (f_type (snd a)) (f_type (snd b))) "type" <|>
+  idefs_diff "args" (f_args (snd a)) (f_args (snd b)) <|>
+  chk (names_eqb (f_features (snd a)) (f_features (snd b))) "features" <|>
+  chk (bytes_eqb (f_deprecation (snd a)) (f_deprecation (snd b))) "deprecation" <|>
+  chk (bytes_eqb (f_desc (snd a)) (f_desc (snd b))) "description".
+Definition fdefs_diff (a b : list (name * field_def)) : option string :=
+  match first_diff fdef_diff a b with Some d => Some ("fields-" ++ d) | None => None end.
+Definition eval_diff (a b : name * enum_val) : option string :=
+  chk (bytes_eqb (fst a) (fst b)) "name" <|>
+  chk (gval_deep_eqb (ev_value (snd a)) (ev_value (snd b))) "value" <|>
+  chk (bytes_eqb (ev_desc (snd a)) (ev_desc (snd b))) "description" <|>
+  chk (bytes_eqb (ev_deprecation (snd a)) (ev_deprecation (snd b))) "deprecation".
+
+Definition ntype_diff (a b : name * named_type) : option string :=
+  chk (bytes_eqb (fst a) (fst b)) "type-name" <|>
+  chk (names_eqb (nt_req (snd a)) (nt_req (snd b))) "type-features" <|>
+  chk (bytes_eqb (nt_desc (snd a)) (nt_desc (snd b))) "type-description" <|>
+  match snd a, snd b with
+  | NScalar b1 a1 _ _, NScalar b2 a2 _ _ => chk (Bool.eqb b1 b2) "scalar-builtin" <|> chk (Bool.eqb a1 a2) "scalar-accepts-all"
+  | NEnum v1 _ _, NEnum v2 _ _ => match first_diff eval_diff v1 v2 with Some d => Some ("enumValues-" ++ d) | None => None end
+  | NInput f1 _ r1 _, NInput f2 _ r2 _ => idefs_diff "inputFields" f1 f2 <|> chk (Bool.eqb r1 r2) "result-coercion"
+  | NObject f1 i1 _ _, NObject f2 i2 _ _ => fdefs_diff f1 f2 <|> chk (names_eqb i1 i2) "interfaces"
+  | NInterface f1 _ _, NInterface f2 _ _ => fdefs_diff f1 f2
+  | NUnion m1 _ _, NUnion m2 _ _ => chk (names_eqb m1 m2) "members"
+  | _, _ => Some "kind"
+  end.
+
+Definition ddef_diff (a b : name * dir_def) : option string :=
+  chk (bytes_eqb (fst a) (fst b)) "directive-name" <|>
+  idefs_diff "directive-args" (dd_args (snd a)) (dd_args (snd b)) <|>
+  chk (names_eqb (dd_locs (snd a)) (dd_locs (snd b))) "directive-locations" <|>
+  chk (bytes_eqb (dd_desc (snd a)) (dd_desc (snd b))) "directive-description".
+
+Definition def_diff (a b : schema) : option string :=
+  chk (bytes_eqb (query a) (query b)) "query" <|>
+  chk (opt_eqb bytes_eqb (mutation a) (mutation b)) "mutation" <|>
+  chk (opt_eqb bytes_eqb (subscription a) (subscription b)) "subscription" <|>
+  match first_diff ntype_diff (types a) (types b) with
+  | Some d => Some (if String.eqb d "count" then "types-count" else d)
+  | None => None
+  end <|>
+  chk (names_eqb (additional a) (additional b)) "additional" <|>
+  match first_diff ddef_diff (directives a) (directives b) with
+  | Some d => Some (if String.eqb d "count" then "directives-count" else d)
+  | None => None
+  end.
+
+(** ** rebuild cases *)
+Inductive rebuilt_obs := RError | RRejected | ROk (R : schema) (dups : list name).
+
+Definition dec_rebuilt (s : sexp) : option rebuilt_obs :=
+  match untag s with
+  | Some (t, args) =>
+      if String.eqb t "error" then Some RError
+      else if String.eqb t "rejected" then Some RRejected
+      else if String.eqb t "ok" then
+        match args with
+        | [sc; d] => do r <- dec_schema sc; do ds <- dec_names d; Some (ROk (fst r) ds)
+        | _ => None
+        end
+      else None
+  | None => None
+  end.
+
+Record doc_obs := { d_text : bytes; d_orig : string; d_rebuilt : string; d_picky : bool }.
+Definition dec_doc (s : sexp) : option doc_obs :=
+  match tagged "doc" s with
+  | Some [SStr t; SSym a; SSym b; p] => do pk <- as_bool p; Some {| d_text := t; d_orig := a; d_rebuilt := b; d_picky := pk |}
+  | _ => None
+  end.
+
+(** a custom scalar of the original that rejects some literals is, rebuilt, one that accepts
+    all: compare with that forced on both sides *)
+Definition force_accept (S : schema) : schema :=
+  {| types := map (fun t => (fst t, match snd t with NScalar false _ r d => NScalar false true r d | x => x end)) (types S);
+     query := query S; mutation := mutation S; subscription := subscription S; additional := additional S;
+     directives := directives S |}.
+
+Fixpoint docs_oracle (ds : list doc_obs) : option string :=
+  match ds with
+  | [] => None
+  | d :: r =>
+      if String.eqb (d_orig d) "panic" || String.eqb (d_rebuilt d) "panic" then docs_oracle r
+      else if String.eqb (d_orig d) (d_rebuilt d) then docs_oracle r
+      else Some (if d_picky d then "rebuilt-custom-scalar-accepts-any-literal" else "verdict-differs")
+  end.
+
+Definition count_docs (p : doc_obs -> bool) (ds : list doc_obs) : nat := List.length (filter p ds).
+
+Definition check_rebuild (l : list sexp) : sexp :=
+  match field1 "schema" l, field1 "features" l, field1 "data" l, field1 "rebuilt" l, field "docs" l with
+  | Some sc, Some fs, Some data, Some rb, Some dl =>
+      match dec_schema sc, dec_names fs, dec_data data, dec_rebuilt rb, map_opt dec_doc dl with
+      | Some (Sc, _), Some F, Some (Some o), Some robs, Some docs =>
+          let S := Sc in
+          let hyps := depth_ok S && gating_coherent S F in
+          let model := rebuild o in
+          (* 1. oracle: the rebuilt definition is the visible part of the original, and verdicts agree *)
+          let oracle :=
+            if hyps then
+              match robs with
+              | RError => Some "rebuild-fails"
+              | RRejected => Some "rebuilt-definition-rejected-by-schema-New"
+              | ROk R dups =>
+                  match dups with _ :: _ => Some "rebuilt-duplicate-type-objects" | [] =>
+                  let keep := fun n => mem n (map fst (types R)) in
+                  match def_diff (force_accept (canon R)) (force_accept (canon_on keep (erase S F))) with
+                  | Some w => Some ("rebuilt-differs-" ++ w)
+                  | None =>
+                      if negb (names_eqb (map fst (types R)) (sort_by (fun n => n) (members (anchored_schema S F))))
+                      then Some "rebuilt-reachable-types"
+                      else docs_oracle docs
+                  end end
+              end
+            else None in
+          match oracle with
+          | Some key => v_oracle_fail key []
+          | None =>
+              (* 2. model of GetSchemaDefinition on the observed JSON vs the real one *)
+              match model, robs with
+              | None, RError => v_ok ["rebuild-error"; (if hyps then "nontrivial" else "outside-hypotheses")]
+              | None, _ => v_mismatch "model-says-rebuild-fails" []
+              | Some _, RError => v_mismatch "implementation-rebuild-fails" []
+              | Some M, RRejected => v_ok ["rebuilt-rejected"]
+              | Some M, ROk R _ =>
+                  let keep := fun n => mem n (map fst (types R)) in
+                  match def_diff (canon R) (canon_on keep M) with
+                  | Some w => v_mismatch ("rebuilt-" ++ w) []
+                  | None =>
+                      if negb (names_eqb (additional R) (additional M)) then v_mismatch "rebuilt-additional" []
+                      else if negb (names_eqb (map fst (types R)) (sort_by (fun n => n) (members M)))
+                      then v_mismatch "rebuilt-reachable" []
+                      else
+                        let acc := count_docs (fun d => String.eqb (d_orig d) "accepted") docs in
+                        let rej := count_docs (fun d => String.eqb (d_orig d) "rejected") docs in
+                        v_ok (["rebuild"] ++
+                              (if Nat.leb 3 acc && Nat.leb 3 rej then ["nontrivial"] else []) ++
+                              (if existsb (fun d => String.eqb (d_orig d) "panic" || String.eqb (d_rebuilt d) "panic") docs then ["validator-panic"] else []) ++
+                              (if negb (scalars_accept_all S) then ["picky-scalar"] else []) ++
+                              (if negb (Nat.eqb (List.length (types R)) (List.length (listed S F))) then ["orphans-dropped"] else []) ++
+                              (if hyps then [] else ["outside-hypotheses"]))%list
+                  end
+              end
+          end
+      | _, _, _, _, _ => v_bad "decode"
+      end
+  | _, _, _, _, _ => v_bad "fields"
+  end.
+
 Definition check (c : sexp) : sexp :=
   match tagged "case" c with
   | Some (SSym k :: l) =>
       if String.eqb k "intro" then check_intro l
+      else if String.eqb k "rebuild" then check_rebuild l
       else v_bad "kind"
   | _ => v_bad "shape"
   end.
